@@ -610,6 +610,21 @@ theorem import_window_crash {cfg : Cfg} {G : Block} (E : StaticOK cfg.st G) {x :
     JI cfg G (stepQ cfg.st cfg.n true x .crash) k w ∧ (stepQ cfg.st cfg.n true x .crash).queue = [] ∧
     (crash (envAt cfg.st x.chain) cfg.n x.P).ok = true := JI_crash E hJ
 
+open MW.Lemmas.Deepen3 MW.Lemmas.Deepen4 MW.Lemmas.ImportJoin in
+/-- **crash_during_start_import** (round 4): a crash DURING Start inside an import window — between any two commits of
+    its resync / catch-up (`SInvJ`: the store follows a prefix of the node's chain in the joined sense) — is again a
+    state from which boot + Start succeed, reach the node's whole chain and queue the unfinished work: the commit
+    boundaries inside Start are crash points too -/
+theorem crash_during_start_import {st : Static} {G : Block} (E : StaticOK st G) {ks : AMap.T Wid KsRec}
+    {chain : List Block} (hN : Lemmas.Ledger.ChainOK (lenv st ks) G chain) (n : Nat) {w : Wid} {s0 : Store} {h : Nat}
+    {P : PStore} {V : PVol} (hS : SInvJ st ks chain w s0 h P V) (hKN : Lemmas.Ledger.KeysNodup (ownOf ks))
+    (hw : w ∈ walletsOf ks) :
+    (crash (envAt st chain) n P).ok = true ∧
+    IJ ((lenv st ks).ctx chain) w (crash (envAt st chain) n P).P.led chain ∧
+    (crash (envAt st chain) n P).V.led.best = Lemmas.Ledger.tipMeta chain ∧
+    (crash (envAt st chain) n P).V.tasks = requeue (crash (envAt st chain) n P).P :=
+  crash_during_start_ij E hN n hS hKN hw
+
 open MW.Lemmas.Deepen3 MW.Lemmas.Deepen4 in
 /-- **resumption_anywhere_full** (round 4).  The state `x` is the one ANY history reaches inside an import window —
     rescan at any cursor, follower lagging or on a branch the node has left, batches already put off, any number of
